@@ -99,12 +99,64 @@ type Instance struct {
 
 type Model struct {
 	Defined map[int]bool // terms that were part of the query the model answers
+	appIdx  map[string]uint64
+	StrText func(uint64) string
 	Vals map[*Term]uint64
 	memo map[*Term]uint64
 	u    *Univ
 }
 
-func (m *Model) Eval(t *Term) uint64 { return m.u.Eval(t, m.Vals, m.memo) }
+func (m *Model) Eval(t *Term) uint64 {
+	m.u.AppEval = m.appEval
+	defer func() { m.u.AppEval = nil }()
+	return m.u.Eval(t, m.Vals, m.memo)
+}
+
+// appEval: value of an uninterpreted application under the model. Applications
+// that were part of the solver query have their solver value; others are
+// completed consistently: same function and argument values as a defined
+// application -> its value, otherwise the native replay's fallback function.
+func (m *Model) appEval(t *Term, env map[*Term]uint64, memo map[*Term]uint64) uint64 {
+	if m.Defined == nil || m.Defined[t.ID] {
+		return env[t]
+	}
+	if m.appIdx == nil {
+		m.appIdx = map[string]uint64{}
+		for name, fd := range m.u.Funs {
+			for _, a := range fd.Apps {
+				if m.Defined[a.ID] {
+					k := name
+					for _, arg := range a.Args {
+						k += fmt.Sprintf("|%d", m.u.Eval(arg, env, memo))
+					}
+					m.appIdx[k] = env[a]
+				}
+			}
+		}
+	}
+	k := t.Name
+	var av []uint64
+	for _, arg := range t.Args {
+		v := m.u.Eval(arg, env, memo)
+		av = append(av, v)
+		k += fmt.Sprintf("|%d", v)
+	}
+	if v, ok := m.appIdx[k]; ok {
+		return v
+	}
+	switch {
+	case t.Name == "hash_2":
+		return av[0]*0x9E3779B97F4A7C15 ^ av[1]
+	case t.Name == "hashstr" && m.StrText != nil:
+		s := m.StrText(av[0])
+		h := av[1] ^ 0xcbf29ce484222325
+		for i := 0; i < len(s); i++ {
+			h = (h ^ uint64(s[i])) * 0x100000001b3
+		}
+		return h
+	}
+	return 0
+}
 
 type Violation struct {
 	Oblig Oblig
@@ -335,7 +387,7 @@ func Discharge(x *Exec, inst Instance, so SolveOpts) *InstResult {
 		onlyUnwind := true
 		for _, o := range group {
 			all = u.Or(all, o.Cond)
-			if o.Kind != "unwind" {
+			if o.Kind != "unwind" && o.Kind != "blocked" {
 				onlyUnwind = false
 			}
 		}
@@ -388,6 +440,11 @@ func Discharge(x *Exec, inst Instance, so SolveOpts) *InstResult {
 	}
 	var unw, rest []Oblig
 	for _, o := range asserts {
+		if o.Kind == "blocked" {
+			// a reader that must wait never gets past this point: decided without the unwinding assumptions
+			decide([]Oblig{o})
+			continue
+		}
 		if o.Kind == "unwind" {
 			unw = append(unw, o)
 		} else {
@@ -447,5 +504,5 @@ func getModel(x *Exec, s *Solver) (*Model, error) {
 	for id := range s.defined {
 		def[id] = true
 	}
-	return &Model{Vals: vals, memo: map[*Term]uint64{}, u: x.U, Defined: def}, nil
+	return &Model{Vals: vals, memo: map[*Term]uint64{}, u: x.U, Defined: def, StrText: x.strText}, nil
 }
